@@ -461,6 +461,9 @@ func exploreFileServer(c *Ctx, r *RuleResult) []*fsRun {
 				run.Status = "200"
 			}
 			for _, e := range in.Trace {
+				if os.Getenv("GWFSTRACE") == run.Method {
+					fmt.Printf("   effect: %s\n", e.String())
+				}
 				switch e.Name {
 				case "http.Error":
 					if hostPath(e.Args[1]) {
